@@ -37,7 +37,7 @@ pub struct Q {
 
 const QCONFS: [(Kind, f64); 3] = [(Kind::Two, 0.95), (Kind::Upper, 0.75), (Kind::Lower, 0.3)];
 
-pub trait Acc: Clone + PartialEq + Debug + Send + Sync + 'static {
+pub trait Acc: Clone + PartialEq + Debug + Send + 'static {
     const NAME: &'static str;
     /// unit roundoff of the element type
     const U: f64;
